@@ -9,7 +9,7 @@
 From RU Require Import Base.Prelude Base.Utf8 Base.U32_c13 Gen.Tables Model.Punycode Model.Uts46
   Proofs.Idna_Sim Proofs.Idna_Api Proofs.Idna_Known Proofs.Idna_Hyp Proofs.Idna_Tables Proofs.Idna_Redisc
   Proofs.Idna_C10_Deny Proofs.Idna_C10_Prefix Proofs.Idna_C10_Inner Proofs.Idna_C10_Walk Proofs.Idna_C10_Config
-  Proofs.Idna_C10b_Long Proofs.Idna_C10b_AsciiInner Proofs.Idna_C10b_AsciiWalk Proofs.Idna_C10b_Stmt.
+  Proofs.Idna_C10b_Long Proofs.Idna_C10b_AsciiInner Proofs.Idna_C10b_AsciiWalk Proofs.Idna_C10b_Stmt Proofs.Idna_C10b_LongRej.
 
 (* a borrowed result is the input *)
 Theorem C10_borrow : forall A cfg d deny hy dns r, to_ascii A cfg d deny hy dns = Ok (true, r) -> r = d.
@@ -50,6 +50,17 @@ Check C10_long_witness :
   Known_C12 lowad false W_C10_long DENY_EMPTY HAllow = false /\
   Known_C11 lowad false W_C10_long DENY_EMPTY HAllow = false.
 Print Assumptions C10_long_witness.
+
+(* every member of the class Known_C10_long is rejected - every adapter, every option combination: an all-ASCII name
+   with a label that starts with xn-- and has more than 2000 characters after it is never accepted.  So a result of
+   to_ascii inside the class (they exist: C10_long_witness) is never a fixed point: the exclusion of the class from
+   the idempotence statement is necessary *)
+Theorem C10_long_rejected : forall A cfg r deny hy dns b x, Forall (fun c => c < 128) r -> Known_C10_long r = true ->
+  to_ascii A cfg r deny hy dns <> Ok (b, x).
+Proof. exact long_rejected. Qed.
+Check C10_long_rejected : forall A cfg r deny hy dns b x, Forall (fun c => c < 128) r -> Known_C10_long r = true ->
+  to_ascii A cfg r deny hy dns <> Ok (b, x).
+Print Assumptions C10_long_rejected.
 
 (* C10_case_statement is false relative to AdapterOK alone: "a.<alef>" is accepted, "A.<alef>" is not, for an adapter
    whose bidi class of 'a' cannot start a label (the labels of the pass-through prefix are never submitted to the
